@@ -197,6 +197,7 @@ type vfSim struct {
 	closed   bool
 	extraHook func(a *Association, side int, ev int, c *chunkPayloadData)
 	noInv    bool
+	puppet   [2]bool
 }
 
 type vfSimNetLink struct{ sim *vfSim }
